@@ -568,7 +568,7 @@ class Daemon(object):
             for streamId in list(self.streaming_responses):
                 info = self.streaming_responses.get(streamId, None)
                 if info and info[0] is conn:
-                    del self.streaming_responses[streamId]
+                    self.streaming_responses.pop(streamId, None)    # (the housekeeping may have removed it in the meantime)
         self.clientDisconnect(conn)  # user overridable hook
 
     def _housekeeping(self):
